@@ -3,7 +3,7 @@ index DIRINDEXES[i] joined with BASENAMES[i] - in order, for as many files as th
 directory index outside DIRNAMES is an error, all three tags absent the empty list.  Verbatim body; the
 `zip(..).try_fold(..)` is a helper whose contract is the fold of the (verbatim) closure."""
 import re
-from vunit import Raw, Prelude, Fn, Decl
+from vunit import Raw, Prelude, Fn, Decl, Block
 from common import *
 
 NAME = 'c05_paths'
@@ -148,7 +148,33 @@ impl PackageMetadata {
         },
         (entry_of(self.header, 1117) is None && entry_of(self.header, 1116) is None && entry_of(self.header, 1118) is None) ==> r is Ok,''',
        ),
+    Block(PKG, 'get_file_entries', impl='impl PackageMetadata', exclusive=True, keep_start=True,
+          start='        let sizes = ', end='        let flags = ',
+          subs=[(re.compile(r'(\w+)\s*\.into_iter\(\)\s*\.map\(\|(\w+)\| \2 as _\)\s*\.collect::<Vec<u64>>\(\)'), r'widen_u32s(\1)', 1, 'R12-element-wise widening u32 -> u64 collected'),
+                (re.compile(r'\.map\(\|(\w+)\| \{'), r'.map(|\1: Vec<u32>| -> (o: Vec<u64>) ensures o@ == widened(\1@) {', 1, 'closure contract spliced'),
+                (re.compile(r'\.or_else\(\|_e\| \{'), '''.or_else(|_e: Error| -> (o: Result<Vec<u64>, Error>)
+                ensures match get_u32arr(self.header, 1028) { Some(d) => o is Ok && o->Ok_0@ == widened(d), None => o is Err }
+            {''', None, 'closure contract spliced'),
+                ],
+          header='''    /// E2 - the per-file sizes of get_file_entries: the 64-bit array when the package has one, else the 32-bit array widened,
+    /// whatever size tags the package carries otherwise.  Free variable: self.header
+    pub fn e2_sizes(&self) -> (r: Result<Vec<u64>, Error>)
+        ensures match get_u64arr(self.header, 5008) {                      // RPMTAG_LONGFILESIZES
+            Some(d) => r is Ok && r->Ok_0@ == d,
+            None => match get_u32arr(self.header, 1028) {                  // RPMTAG_FILESIZES
+                Some(d) => r is Ok && r->Ok_0@ == widened(d),
+                None => r is Err,
+            },
+        },''',
+          tail='''
+        sizes'''),
     Raw('''}
+pub open spec fn widened(v: Seq<u32>) -> Seq<u64> { Seq::new(v.len(), |i: int| v[i] as u64) }
+#[verifier::external_body]
+pub fn widen_u32s(v: Vec<u32>) -> (r: Vec<u64>) ensures r@ == widened(v@) { unimplemented!() }
+pub assume_specification<T, E, F, O: FnOnce(E) -> Result<T, F>>[ Result::<T, E>::or_else ](r: Result<T, E>, op: O) -> (res: Result<T, F>)
+    requires r is Err ==> op.requires((r->Err_0,)),
+    ensures match r { Ok(t) => res == Ok::<T, F>(t), Err(e) => op.ensures((e,), res) };
 // vacuity canary: must FAIL
 pub fn canary_paths(m: &PackageMetadata)
 {
@@ -158,5 +184,5 @@ pub fn canary_paths(m: &PackageMetadata)
 '''),
 ] + TAIL
 
-OBLIGATIONS = {'PackageMetadata::get_file_paths': ['C05', 'C06'], 'lemma_fold': ['C05'], 'lemma_paths_push': ['C05']}
+OBLIGATIONS = {'PackageMetadata::get_file_paths': ['C05', 'C06'], 'PackageMetadata::e2_sizes': ['C05', 'C06'], 'lemma_fold': ['C05'], 'lemma_paths_push': ['C05']}
 CANARIES = ['canary_paths']
